@@ -59,4 +59,35 @@ func TestCheckTopologyFamilies(t *testing.T) {
 		func(t *rapid.T) *sim.World { return sim.GenWorld(t, topoProfile()) }, sim.JudgeConstraints)
 }
 
+// anti-affinity families: holders of a required anti-affinity term and targets that only carry the forbidden label
+// compete in full clusters, so that targets fail in allocate and are placed by reclaim / preempt / consolidation after
+// holders were bound in the same cycle.
+func antiProfile() sim.Profile {
+	pf := sim.DefaultProfile()
+	pf.AntiFamily = true
+	pf.MaxNodes = 3
+	pf.MaxGroups = 8
+	pf.PRunning = 5
+	pf.PTerminating = 1
+	pf.PFaults = 0
+	pf.PMIG = 0
+	pf.PTopology = 0
+	pf.PSubGroups = 1
+	pf.PMinRuntime = 0
+	pf.PWholeGPU = 8
+	pf.PSharing = 2
+	pf.Contention = true
+	pf.Saturated = true
+	pf.NoNodeProblems = true
+	pf.NoBindFailures = true
+	pf.MaxCycles = 2
+	pf.Actions = [][]string{nil, nil, {"allocate", "reclaim"}, {"allocate", "preempt"}, {"allocate", "reclaim", "preempt"}, {"allocate", "consolidation", "reclaim", "preempt"}}
+	return pf
+}
+
+func TestCheckAntiAffinityFamilies(t *testing.T) {
+	sim.CheckProperty(t, "C04", kit.Budget{Quick: 3000, Thorough: 150000},
+		func(t *rapid.T) *sim.World { return sim.GenWorld(t, antiProfile()) }, sim.JudgeConstraints)
+}
+
 func TestReplay(t *testing.T) { sim.ReplayProperty(t, sim.JudgeConstraints, 20) }
